@@ -190,108 +190,6 @@ def sign_test(test: ast.AST, polarity: bool = True) -> Optional[Tuple[ast.AST, s
 # =====================================================================================================================
 # structure of the recursive passes (shared by C02, C04, C07, C08, C09, C14)
 
-def fold_running_lattice(f: Func) -> int:
-    """`acc = INIT; for v in X: [if v.A is None: continue] if v.A > acc: acc = v.A` (also `acc < v.A`, `>=`, `acc = max(acc, v.A)`,
-    the None test as an enclosing `if v.A is not None:` or as `v.A is not None and v.A > acc`; `<` / min likewise) is the explicit
-    spelling of `acc = max([v.A for v in X if v.A is not None] + [INIT])`: the two statements are replaced IN PLACE by that one
-    assignment (same value on every path, the loop has no other effect), so that every rule reads the comprehension form.  Nothing
-    is rewritten unless the whole loop body is understood.  Returns the number of loops folded; cfg / flow caches are dropped."""
-    import copy
-    folded = 0
-
-    def lattice_step(st, acc, v):
-        """(op, A-expression, has_none_test) for `if v.A > acc: acc = v.A` / `acc = max(acc, v.A)`; None otherwise"""
-        if isinstance(st, ast.Assign) and len(st.targets) == 1 and isinstance(st.targets[0], ast.Name) and st.targets[0].id == acc:
-            for op in ('max', 'min'):
-                m = match(f"{op}({acc}, $e)", st.value) or match(f"{op}($e, {acc})", st.value)
-                if m and isinstance(m['e'], ast.Attribute) and isinstance(m['e'].value, ast.Name) and m['e'].value.id == v:
-                    return op, m['e'], False
-            return None
-        if not (isinstance(st, ast.If) and not st.orelse and len(st.body) == 1):
-            return None
-        inner = st.body[0]
-        if not (isinstance(inner, ast.Assign) and len(inner.targets) == 1 and isinstance(inner.targets[0], ast.Name) and
-                inner.targets[0].id == acc and isinstance(inner.value, ast.Attribute) and isinstance(inner.value.value, ast.Name) and
-                inner.value.value.id == v):
-            return None
-        e = inner.value
-        test, guarded = st.test, False
-        if isinstance(test, ast.BoolOp) and isinstance(test.op, ast.And) and len(test.values) == 2 and \
-                match(f"{v}.{e.attr} is not None", test.values[0]):
-            test, guarded = test.values[1], True
-        if not (isinstance(test, ast.Compare) and len(test.ops) == 1):
-            return None
-        l, r, op = test.left, test.comparators[0], test.ops[0]
-        if isinstance(r, ast.Name) and r.id == acc and same(l, e):
-            kind = 'max' if isinstance(op, (ast.Gt, ast.GtE)) else 'min' if isinstance(op, (ast.Lt, ast.LtE)) else None
-        elif isinstance(l, ast.Name) and l.id == acc and same(r, e):
-            kind = 'max' if isinstance(op, (ast.Lt, ast.LtE)) else 'min' if isinstance(op, (ast.Gt, ast.GtE)) else None
-        else:
-            kind = None
-        return (kind, e, guarded) if kind else None
-
-    def fold_block(block):
-        nonlocal folded
-        i = 1
-        while i < len(block):
-            init, fo = block[i - 1], block[i]
-            i += 1
-            if not (isinstance(fo, ast.For) and not fo.orelse and isinstance(fo.target, ast.Name) and
-                    isinstance(init, ast.Assign) and len(init.targets) == 1 and isinstance(init.targets[0], ast.Name)):
-                continue
-            acc, v = init.targets[0].id, fo.target.id
-            if any(isinstance(x, ast.Name) and x.id == acc for x in ast.walk(fo.iter)) or \
-                    any(isinstance(x, ast.Name) and x.id == v for x in ast.walk(init.value)):
-                continue
-            body = [b for b in fo.body if not (isinstance(b, ast.Expr) and isinstance(b.value, ast.Constant))]
-            guarded = False
-            if len(body) == 2 and isinstance(body[0], ast.If) and not body[0].orelse and len(body[0].body) == 1 and \
-                    isinstance(body[0].body[0], ast.Continue):
-                m = match(f"{v}.$a is None", body[0].test)
-                if not m:
-                    continue
-                guarded, none_attr, body = True, m['a'], body[1:]
-            elif len(body) == 1 and isinstance(body[0], ast.If) and not body[0].orelse and len(body[0].body) == 1 and \
-                    match(f"{v}.$a is not None", body[0].test):
-                guarded, none_attr, body = True, match(f"{v}.$a is not None", body[0].test)['a'], body[0].body
-            else:
-                none_attr = None
-            if len(body) != 1:
-                continue
-            step = lattice_step(body[0], acc, v)
-            if step is None:
-                continue
-            kind, e, g2 = step
-            if none_attr is not None and none_attr != e.attr:
-                continue
-            guarded = guarded or g2
-            ifs = [ast.Compare(left=copy.deepcopy(e), ops=[ast.IsNot()], comparators=[ast.Constant(value=None)])] if guarded else []
-            comp = ast.ListComp(elt=copy.deepcopy(e), generators=[ast.comprehension(target=ast.Name(id=v, ctx=ast.Store()), iter=fo.iter,
-                                                                                    ifs=ifs, is_async=0)])
-            value = ast.Call(func=ast.Name(id=kind, ctx=ast.Load()),
-                             args=[ast.BinOp(left=comp, op=ast.Add(), right=ast.List(elts=[init.value], ctx=ast.Load()))], keywords=[])
-            new = ast.Assign(targets=[ast.Name(id=acc, ctx=ast.Store())], value=value)
-            ast.copy_location(new, fo)
-            for x in ast.walk(new):
-                if not hasattr(x, 'lineno'):
-                    ast.copy_location(x, fo)
-            ast.fix_missing_locations(new)
-            block[i - 2:i] = [new]
-            i -= 1
-            folded += 1
-
-    for n in list(walk_no_nested(f.node)):
-        for field in ('body', 'orelse', 'finalbody'):
-            blk = getattr(n, field, None)
-            if isinstance(blk, list) and blk and isinstance(blk[0], ast.stmt):
-                fold_block(blk)
-    if folded:
-        from sa import cfg as _cfg, flow as _flow
-        _cfg._CFG_CACHE.pop(id(f.node), None)
-        _flow._FLOWS.pop(id(f.node), None)
-    return folded
-
-
 class PassShape:
     """facts about one scheduler pass, extracted once; `problems` are (node, message) pairs found while extracting"""
 
@@ -300,7 +198,6 @@ class PassShape:
         self.ctx, self.S = ctx, S
         prog = ctx.prog
         self.f = f = prog.func(S['pass_'])
-        fold_running_lattice(f)         # explicit running max / min loops read as max / min over a comprehension
         p = f.params
         if len(p) < 4:
             from sa.model import AnalysisError
